@@ -2239,9 +2239,9 @@ def run(ctx: Ctx):
     run_nls(ctx, [dict(c) for c in NLS_CORPUS], 10 ** 6)
     run_clock(ctx, [gen_clock_case(s, q) for s in seeds(ctx.pick(600, 8000))])
     run_multi(ctx, [gen_multi_case(s, q) for s in seeds(ctx.pick(400, 6000))])
-    run_lin(ctx, [gen_lin_case(s, q) for s in seeds(ctx.pick(700, 12000))])
+    run_lin(ctx, [gen_lin_case(s, q) for s in seeds(ctx.pick(600, 10000))])
     run_bmv(ctx, [gen_bmv_case(s, q) for s in seeds(ctx.pick(300, 6000))])
-    run_nls(ctx, [gen_nls_case(s, q) for s in seeds(ctx.pick(650, 12000))], ctx.pick(700, 14000))
+    run_nls(ctx, [gen_nls_case(s, q) for s in seeds(ctx.pick(500, 9000))], ctx.pick(600, 11000))
 
 
 def search(ctx: Ctx):
